@@ -45,6 +45,7 @@ TEMPLATES = {
              ["try:", "    x{k} = p({k}, '{o}')", "finally: y{k} = 2"]],
     'deco3': [["@pd({k}, '{o}')", "def f{k}():", "    return {k}"],
               ["@pd({k}, '{o}')", "class K{k}(object):", "    z = {k}"]],
+    'star': [["from os.path import *"], ["from collections import *  # star"]],
     'pair2': [["x{k} = p({k}, '{o}')", "y{k} = {k}"]],
     'badone': [["x{k} = = 1"], ["def {k}bad(:"], ["x{k} = 1 +"]],
     'trunc2': [["x{k} = [p({k}, '{o}'),", "2"], ["x{k} = '''{o}", "never closed"]],
